@@ -187,6 +187,9 @@ class C07(Prop):
                 free = [p for p in POOL + ["x", "o0", "o1", "o2", "y0", "y1"] + olds if p not in keep and p not in recv.outputs]
                 free = list(dict.fromkeys(free))
                 news = rng.sample(free, len(olds))
+                if len(recv.inputs) >= 2 and rng.random() < 0.35:
+                    olds = rng.sample(list(recv.inputs), 2)      # a parallel swap of two current names
+                    news = [olds[1], olds[0]]
                 pairs = [[o, n] for o, n in zip(olds, news) if o != n]
                 if not pairs:
                     return None, None
@@ -199,6 +202,9 @@ class C07(Prop):
                 free = [p for p in POOL + ["o0", "o1", "o2"] + olds if p not in keep and p not in recv.inputs]
                 free = list(dict.fromkeys(free))
                 news = rng.sample(free, len(olds))
+                if len(recv.outputs) >= 2 and rng.random() < 0.35:
+                    olds = rng.sample(list(recv.outputs), 2)
+                    news = [olds[1], olds[0]]
                 pairs = [[o, n] for o, n in zip(olds, news) if o != n]
                 if not pairs:
                     return None, None
